@@ -525,3 +525,8 @@ func init() {
 	addMutant(Mutant{Name: "c05-ordered-disjoint-by-scan-counter", Property: "C05", File: "ygot/struct_validation_map.go",
 		Old: "\tcase si == len(srcKeys), disjoint:", New: "\tcase si == len(srcKeys), si == 0 || disjoint:", Expect: "orderedMapKeysMergeable:accept"})
 }
+
+func init() {
+	addMutant(Mutant{Name: "c06-final-dollar-ignores-escape", Property: "C06", File: "util/yang.go",
+		Old: "\t\tfinalAnchor := i == last && ch == '$' && !inEscape", New: "\t\tfinalAnchor := i == last && ch == '$'", Expect: "final-dollar#"})
+}
